@@ -67,6 +67,18 @@ def gen_inputs(tier, rnd):
         for cols in ([[0], [1]], [[1], [0]], [[0, 1], [1, 0]]):
             yield {"spec": {"format": "delimited", "header": 0, "fields": fields, "checks": [{"kind": "unique", "cols": c} for c in cols]}, "table": table, "mode": "yield"}
 
+    # keys of several fields whose values differ only in where a character stands - at the end of one value or at the
+    # start of the next - are different keys, whatever that character is
+    text_fields = [{"name": "k%d" % i, "empty": True, "type": "Text", "choices": [], "length": None} for i in range(3)]
+    for sep in ["\udcff", "\x1f", "\x1e", "|", "\t", " ", ";", "\uffff", "\ue000", "\x01", "'", "(", "\\", "/", "-"]:
+        for ncols in (2, 3):
+            pad = ["x"] * (ncols - 2)
+            table = [["a" + sep, "b"] + pad, ["a", sep + "b"] + pad, ["a" + sep, "b"] + pad, [sep, ""] + pad, ["", sep] + pad, ["a", "b" + sep] + pad[:0] + ([sep + "x"] if pad else [])]
+            table = [r for r in table if len(r) == ncols]
+            for cols in ([0, 1], [1, 0]) + (([0, 1, 2], [1, 2]) if ncols == 3 else ()):
+                yield {"spec": {"format": "delimited", "header": 0, "fields": text_fields[:ncols], "checks": [{"kind": "unique", "cols": list(cols)}]},
+                       "table": table, "mode": "yield"}
+
 
 def direct_oracle(inp, obs):
     """independent recomputation of the property's right-hand side for on_error='yield'"""
@@ -78,7 +90,7 @@ def direct_oracle(inp, obs):
     values = [set() for _ in spec["checks"]]
     expected = []
     for rno, row in enumerate(table):
-        ok_fields = len(row) == n and all(c in ("a", "b", "c") for c in row)
+        ok_fields = len(row) == n and all(f["type"] == "Text" or c in ("a", "b", "c") for f, c in zip(spec["fields"], row))
         verdict = "row"
         if not ok_fields:
             verdict = "rejected-before-checks"
